@@ -26,6 +26,22 @@ CLAIMED = {
         ref="3 C17, 2.8"),
 }
 
+CLAIMED["C14"] = dict(
+    category="other",
+    technique="may-throw fixed point + structural rules on the typed AST (value sets, control dependence, "
+              "loop-idiom classification, constant index ranges)",
+    text="Decides the structural totality and memory-safety clauses: only gm2calc::Error reaches main's "
+         "handler and nothing escapes main or a noexcept function; every exit status is in {0,1}; every "
+         "failure exit is preceded by a diagnostic; stdout is touched only by the writers; every "
+         "float->int conversion and every input-derived index is range-tested first; ~750 constant indices "
+         "lie within the fixed Eigen dimensions; all ~190 loops follow a bounded idiom and the call graph has "
+         "no recursion; raw new/delete only in the C constructors/free. These hold for every input because "
+         "they are facts about all program paths, not about sampled files.",
+    note=TRUST + "Not decided: UB inside Eigen/boost/libstdc++, uninitialised reads in general, leaks beyond "
+         "'no raw allocation', Eigen accesses with run-time indices (counted, not judged). Allocation failure "
+         "excluded.",
+    ref="3 C14, 2.8")
+
 NOT_APPLICABLE = {
     "C03": "numerical agreement of one-loop results with an independent higher-precision evaluation over all "
            "parameter points: depends on eigen-decomposition values; no code-shape clause of its own "
